@@ -11,6 +11,7 @@ global size_of usize == 8;
 
 //@include prelude/inc_pwl_core.rs
 //@include prelude/lp_oracle_spec.rs
+//@include prelude/reach_spec.rs
 
 impl<N, const K: usize> Tree<N, K> {
 // contracts proved in unit tree_graph (prelude/inc_tree_edit.rs).  remove_child is used WITHOUT its arena-size precondition (the i32 deletion counter of
@@ -42,7 +43,7 @@ pub fn remove_child(&mut self, parent: TreeIndex, label: Label) -> (r: N)
 //@end
 
 impl<const K: usize> AffTree<K> {
-// contract proved in unit pwl_feasible on the real body (root shortcut; verdicts only from Infeasible evidence); the LP layer behind it stays an oracle
+// contract proved in unit pwl_feasible on the real body INCLUDING the construction of the path polytope (binary trees): root shortcut; verdicts only from Infeasible evidence; the LP layer behind it stays an oracle
 //@assumed units/pwl_feasible.rs | is_edge_feasible
 
 //@fn src/pwl/afftree.rs | impl<const K: usize> AffTree<K> | update_node
@@ -62,8 +63,11 @@ impl<const K: usize> AffTree<K> {
 }
 //@fn src/pwl/impl_composition.rs | impl CompositionSchema for FunctionCompositionInfeasible | explore | as=fci_explore
 //@spec
-    requires context.tree.wf(), parent != 0 ==> context.a().dom().contains(child) && context.a()[child].parent == Some(parent)
+    requires k_two::<K>(), context.tree.wf(), context.tree.root is Some, shape_op(context.a(), context.in_dim),
+        parent != 0 ==> context.a().dom().contains(child) && context.a()[child].parent == Some(parent)
     ensures parent == 0 ==> r
+//@hint start
+        proof { reveal(shape_op); reveal(k_two); }
 //@end
 
 //@include prelude/pruned_spec.rs
@@ -110,7 +114,7 @@ impl<const K: usize> AffTree<K> {
 //@bodysub let child0 = edg.target_value; => let child0 = &lhs.tree.tree_node(child0_idx).unwrap().value;
 //@bodysub lhs.tree.is_leaf(child0_idx).unwrap() => lhs.tree.tree_node(child0_idx).unwrap().isleaf
 //@spec
-    requires K >= 2, K < usize::MAX,
+    requires K >= 2, K < usize::MAX, k_two::<K>(),      // K == 2 (opaque here): the path polytope of the pruning oracle exists for binary trees only (labels 0 / 1)
         lhs.tree.wf(), lhs.tree.root is Some, aff_shape_ok(lhs.a(), lhs.in_dim),
         old(rhs).tree.wf(), old(rhs).tree.root == Some(0usize), aff_shape_ok(old(rhs).a(), old(rhs).in_dim),
         terminals_ok(old(rhs).a(), terminals@, lhs.in_dim),
@@ -124,7 +128,7 @@ impl<const K: usize> AffTree<K> {
         proof { lemma_pr_outer_init(lhs.a(), rhs.a(), terminals@, lhs.in_dim); }
 //@loop 1
             invariant
-                K >= 2, K < usize::MAX, lhs.tree.wf(), lhs.tree.root is Some, aff_shape_ok(lhs.a(), lhs.in_dim),
+                K >= 2, K < usize::MAX, k_two::<K>(), lhs.tree.wf(), lhs.tree.root is Some, aff_shape_ok(lhs.a(), lhs.in_dim),
                 terminals_ok(old(rhs).a(), terminals@, lhs.in_dim),
                 0 <= __t <= terminals@.len(), rl == lhs.tree.root.unwrap(),
                 rhs.tree.wf(), rhs.tree.root == Some(0usize), rhs.in_dim == old(rhs).in_dim, aff_shape_ok(rhs.a(), rhs.in_dim),
@@ -138,16 +142,18 @@ impl<const K: usize> AffTree<K> {
             proof {
                 broadcast use axiom_array2_shape;
                 lemma_pr_start(lhs.a(), a_start, rhs.a(), rl, terminal_idx, rhs.in_dim);
+                lemma_shape_write(a_start, rhs.a(), rhs.in_dim, terminal_idx);
             }
 //@loop 2
                 invariant
-                    K >= 2, K < usize::MAX, lhs.tree.wf(), lhs.tree.root is Some, aff_shape_ok(lhs.a(), lhs.in_dim),
+                    K >= 2, K < usize::MAX, k_two::<K>(), lhs.tree.wf(), lhs.tree.root is Some, aff_shape_ok(lhs.a(), lhs.in_dim),
                 terminals_ok(old(rhs).a(), terminals@, lhs.in_dim),
                     0 < __t <= terminals@.len(), terminal_idx == terminals@[__t - 1], rl == lhs.tree.root.unwrap(),
                     rhs.tree.wf(), rhs.tree.root == Some(0usize), rhs.in_dim == old(rhs).in_dim,
                     aff_shape_ok(a_start, rhs.in_dim), pr_outer(lhs.a(), old(rhs).a(), a_start, terminals@, __t - 1),
                     terminal_aff.ok(), terminal_aff.mat.ncols() == rhs.in_dim, terminal_aff.mat.nrows() == lhs.in_dim,
                     pr_inv(lhs.a(), rhs.a(), a_start, kind, pend, None, terminal_idx, rhs.in_dim), pr_stack(kind, pend, stack@),
+                    shape_op(rhs.a(), rhs.in_dim),
                 ensures stack@.len() == 0,
 //@hint loop 2 start
                 proof {
@@ -156,10 +162,12 @@ impl<const K: usize> AffTree<K> {
                     lemma_kid_seq_len(lhs.a()[parent0_idx].children, 0);
                     lemma_kid_seq_members(lhs.a()[parent0_idx].children, 0);
                     lemma_count_zero_no_kids(rhs.a()[parent1_idx], 0);
+                    if !no_kids(lhs.a()[parent0_idx]) { lemma_rows_fit(lhs.a(), lhs.in_dim, parent0_idx, rhs.a()[parent1_idx].value.aff.mat.nrows() as int); }
                 }
+                let ghost p1_val = rhs.a()[parent1_idx].value;
 //@loop 3
                     invariant
-                        K >= 2, K < usize::MAX, lhs.tree.wf(), lhs.tree.root is Some, aff_shape_ok(lhs.a(), lhs.in_dim),
+                        K >= 2, K < usize::MAX, k_two::<K>(), lhs.tree.wf(), lhs.tree.root is Some, aff_shape_ok(lhs.a(), lhs.in_dim),
                 terminals_ok(old(rhs).a(), terminals@, lhs.in_dim),
                         0 < __t <= terminals@.len(), terminal_idx == terminals@[__t - 1], rl == lhs.tree.root.unwrap(),
                     rhs.tree.wf(), rhs.tree.root == Some(0usize), rhs.in_dim == old(rhs).in_dim,
@@ -167,6 +175,7 @@ impl<const K: usize> AffTree<K> {
                     terminal_aff.ok(), terminal_aff.mat.ncols() == rhs.in_dim, terminal_aff.mat.nrows() == lhs.in_dim,
                         pr_inv(lhs.a(), rhs.a(), a_start, kind, pend, Some(parent1_idx), terminal_idx, rhs.in_dim), pr_stack(kind, pend, stack@),
                         kind.dom().contains(parent1_idx), kind[parent1_idx] == parent0_idx, !pend.contains(parent1_idx),
+                        shape_op(rhs.a(), rhs.in_dim), rhs.a()[parent1_idx].value == p1_val, !no_kids(lhs.a()[parent0_idx]) ==> rows_fit::<K>(p1_val.aff.mat.nrows() as int),
                         lhs.a().dom().contains(parent0_idx), rhs.a().dom().contains(parent1_idx),
                         0 <= __i <= __kids@.len(), __kids@.len() == kid_seq(lhs.a()[parent0_idx].children, 0).len(), __kids@.len() <= K,
                         n_children0 == __kids@.len(),
@@ -197,6 +206,8 @@ impl<const K: usize> AffTree<K> {
                         }
                         assert(a_add[parent1_idx].children[label as int] == Some(child1_idx)) by { assert(a_add[parent1_idx].children@[label as int] == Some(child1_idx)); }
                         lemma_count_set(a_pre[parent1_idx].children, a_add[parent1_idx].children, label as int, 0);
+                        // the tree handed to the feasibility test is shape-consistent (needed by the real path polytope)
+                        lemma_shape_add(a_pre, a_add, rhs.in_dim, parent1_idx, label, child1_idx);
                     }
 //@hint after label_created = Some(label);
                         proof {
@@ -213,6 +224,7 @@ impl<const K: usize> AffTree<K> {
 //@hint after rhs.tree .merge_child_with_parent(parent1_idx, label_created.unwrap()) .unwrap();
                     proof {
                         lemma_pr_merge(lhs.a(), a_fin, rhs.a(), a_start, kind, pend, terminal_idx, rhs.in_dim, stack@, parent1_idx, label_created.unwrap(), Some(0usize));
+                        lemma_shape_merge(a_fin, rhs.a(), rhs.in_dim, parent1_idx, label_created.unwrap());
                         kind = kind.remove(parent1_idx);
                     }
 //@hint loop 3 after
@@ -239,7 +251,7 @@ impl<const K: usize> AffTree<K> {
 //@bodysub self.tree.terminal_indices().collect_vec(), FunctionCompositionInfeasible {}, NoOpVis {}, ); } else if !PRUNE && VERBOSE { AffTree::<K>::generic_composition_inplace( other, self, self.tree.terminal_indices().collect_vec(), FunctionComposition {}, CompositionConsole::new(), ); } else { AffTree::<K>::generic_composition_inplace( other, self, self.tree.terminal_indices().collect_vec(), FunctionComposition {}, NoOpVis {}, ); } => leaves_for(&self.tree, Ghost(other.in_dim)), ); }
 //@bodysub AffTree::<K>::generic_composition_inplace( => AffTree::<K>::generic_composition_inplace_pruned(
 //@spec
-    requires K >= 2, K < usize::MAX,
+    requires K >= 2, K < usize::MAX, k_two::<K>(),      // K == 2 (opaque here)
         other.tree.wf(), other.tree.root is Some, aff_shape_ok(other.a(), other.in_dim),
         old(self).tree.wf(), old(self).tree.root == Some(0usize), aff_shape_ok(old(self).a(), old(self).in_dim),
         forall|i: usize| old(self).a().dom().contains(i) && #[trigger] old(self).a()[i].isleaf ==> old(self).a()[i].value.aff.mat.nrows() == other.in_dim,
